@@ -13,6 +13,9 @@
 #include "corecel/Types.hh"
 
 #include "Algorithms.hh"
+#ifdef CELERITAS_VERIF
+#    include "corecel/sys/VerifHooks.hh"
+#endif
 
 namespace celeritas
 {
@@ -40,6 +43,9 @@ CELER_FORCEINLINE_FUNCTION T atomic_add(T* address, T value)
 #    endif
     {
         initial = *address;
+#ifdef CELERITAS_VERIF
+        CELER_VERIF_YIELD("atomic-rmw");
+#endif
         *address += value;
     }
     return initial;
@@ -90,6 +96,9 @@ CELER_FORCEINLINE_FUNCTION T atomic_min(T* address, T value)
 #    endif
     {
         initial = *address;
+#ifdef CELERITAS_VERIF
+        CELER_VERIF_YIELD("atomic-rmw");
+#endif
         *address = celeritas::min(initial, value);
     }
     return initial;
@@ -113,6 +122,9 @@ CELER_FORCEINLINE_FUNCTION T atomic_max(T* address, T value)
 #    endif
     {
         initial = *address;
+#ifdef CELERITAS_VERIF
+        CELER_VERIF_YIELD("atomic-rmw");
+#endif
         *address = celeritas::max(initial, value);
     }
     return initial;
